@@ -139,7 +139,9 @@ CHECKS["C16"] = dict(
          "value is the previous event's new value (nothing at a definition) and update events are raised only for real changes (invariant by "
          "induction over the stream, one_message_keeps_the_chains). Correspondence: BaseClient with callbacks of every filter combination, plain / "
          "coroutine / raising, registered and removed by id or criteria between messages; deliveries per operation compared; internal-consistency "
-         "oracle via a catch-all callback. (State-event chains are covered by the correspondence and oracle only.)",
+         "oracle via a catch-all callback. state_events_form_unbroken_chains: the same invariant for property states (the mirror's state is the "
+         "latest state event's new state, an update's old state is the previous event's new state and differs from the new one; "
+         "one_message_keeps_the_state_chains).",
     note=NOTE_BASE + "Modelled: callbacks registered/removed between messages; coroutine callbacks as 'run afterwards'.",
     technique="Coq proof (invariant over message streams; log filtering lemmas) + correspondence",
     design="4/C16")
